@@ -235,8 +235,15 @@ def run(ctx):
     n_consts = const_agreement(ctx)
     glue_tripwire(ctx)
     fake = ctx.fake_bpf_overlay()
-    binp = fake and ctx.go_test_build("control", ["control/c02_test.go", "control/c01_test.go", "control/c12_test.go"],
-                                      "c02", tags="", extra_overlay=fake)
+    binp = None
+    if fake:
+        files = ["control/c02_test.go", "control/c01_test.go", "control/c12_test.go"]
+        chain_ov, chain_mode = ctx.optchain_overlay()
+        binp = ctx.go_test_build("control", files, "c02", tags="", extra_overlay={**fake, **chain_ov})
+        if not binp and not chain_mode.startswith("FALLBACK"):
+            chain_ov, chain_mode = ctx.optchain_overlay(fallback=True)
+            binp = ctx.go_test_build("control", files, "c02", tags="", extra_overlay={**fake, **chain_ov})
+        ctx.cov["production_optimizer_chain"] = chain_mode
     for t in th:
         t.join()
     if cbuild.get("rc") != 0 or not os.path.exists(cdrv):
